@@ -1,6 +1,6 @@
 (** C16 — the live terminal view converges to the true result for any refresh schedule. *)
 From Coq Require Import List ZArith NArith Bool Lia.
-From AG Require Import Str F64 Value Json Expr Ops Pipeline Term Term_proofs Compile_proofs Rerun_proofs.
+From AG Require Import Str F64 Value Json Expr Ops Pipeline Term Term_proofs Term_scroll_proofs Compile_proofs Rerun_proofs.
 Import ListNotations.
 Open Scope nat_scope.
 
@@ -55,6 +55,40 @@ Theorem C16_frames_do_not_accumulate : forall a t a1 a2,
 Proof. exact frames_do_not_accumulate. Qed.
 Print Assumptions C16_frames_do_not_accumulate.
 
-(** when stdout is not a terminal nothing is written before the final print (render.rs:88-95):
-    statement about the model of Renderer::render, kept in step with the source by the harness *)
-Definition C16_non_tty_is_checked_by_the_harness : Prop := True.
+(** the same from ANY starting point: arbitrary earlier content above the cursor, the cursor on any
+    row with blank rows from there down (as after a shell prompt) — including the usual case where
+    the cursor is near the bottom and the terminal scrolls while frames are drawn.  The earlier
+    content scrolls up by exactly what the tallest frame needed and is otherwise untouched; below it
+    the screen shows exactly the final frame *)
+Theorem C16_frames_converge_anywhere : forall w above below frames last,
+  0 < w -> 0 < below -> Forall (fun r => length r = w) above ->
+  let h := length above + below in
+  Forall (good_frame h w) (frames ++ [last]) ->
+  let bytes := onlcr (render_frames [] (map frame_text (frames ++ [last]))) in
+  let sc := term_run (start_screen w above below) (lex bytes) in
+  let s := scrolled h above (frames ++ [last]) in
+  sc_rows sc = skipn s above ++ map (pad w) last ++ repeat (blank_row w) (h - (length above - s) - length last)
+  /\ sc_r sc = length above - s + length last /\ sc_c sc = 0 /\ sc_w sc = w.
+Proof. exact frames_converge_anywhere. Qed.
+Print Assumptions C16_frames_converge_anywhere.
+
+Theorem C16_frames_converge_anywhere_text : forall w above below frames last,
+  0 < w -> 0 < below -> Forall (fun r => length r = w) above ->
+  let h := length above + below in
+  Forall (good_frame h w) (frames ++ [last]) ->
+  let bytes := onlcr (render_frames [] (map frame_text (frames ++ [last]))) in
+  let sc := term_run (start_screen w above below) (lex bytes) in
+  let s := scrolled h above (frames ++ [last]) in
+  screen_text sc = map trim_end (skipn s above) ++ map trim_end last ++ repeat [] (h - (length above - s) - length last).
+Proof. exact frames_converge_anywhere_text. Qed.
+Print Assumptions C16_frames_converge_anywhere_text.
+
+Example C16_scroll_example :
+  let w := 6 in
+  let above := [lit "aaaaaa"; lit "bbbbbb"; lit "cccccc"] in
+  let frames := [[lit "x"]; [lit "p"; lit "q"; lit "r"]] in
+  let last := [lit "k  v"; lit "1  2"] in
+  let sc := term_run (start_screen w above 2) (lex (onlcr (render_frames [] (map frame_text (frames ++ [last]))))) in
+  (scrolled 5 above (frames ++ [last]) = 2) /\
+  sc_rows sc = [lit "cccccc"; lit "k  v  "; lit "1  2  "; lit "      "; lit "      "] /\ sc_r sc = 3 /\ sc_c sc = 0.
+Proof. exact scroll_example. Qed.
